@@ -7,5 +7,6 @@ here=$(cd "$(dirname "$0")" && pwd)
 git -C /repo worktree add --detach "$wt" "$rev" >/dev/null 2>&1 || exit 2
 cat "$here/unsync_probes.rs" >> "$wt/src/unsync/cache.rs"
 cat "$here/sync_probes.rs" >> "$wt/src/sync/cache.rs"
-(cd "$wt" && CARGO_NET_OFFLINE=true CARGO_TARGET_DIR="$wt/target" cargo test --offline --lib verif_probes 2>&1 | grep -E "^test |panicked|C[0-9][0-9]:|test result")
+cat "$here/sketch_probe.rs" >> "$wt/src/common/frequency_sketch.rs"
+(cd "$wt" && CARGO_NET_OFFLINE=true CARGO_TARGET_DIR="$wt/target" cargo test --offline --lib verif_probe 2>&1 | grep -E "^test |panicked|C[0-9][0-9]:|test result")
 git -C /repo worktree remove --force "$wt"
